@@ -326,6 +326,10 @@ def _worker_task(task):
     return results, left, arg, (stats.queries, stats.solver_s, stats.branches, stats.funcs, stats.models, stats.steps)
 
 
+WSTRIDE = int(os.environ.get('MSYM_WSTRIDE') or 17)
+WCAP = int(os.environ.get('MSYM_WCAP') or 400)
+
+
 class Exploration:
     def __init__(self):
         self.paths = 0
@@ -343,6 +347,7 @@ class Exploration:
         self.unsupported = {}
         self.panics = {}
         self.samples = []
+        self.wsamples = []        # strided sample of path witnesses for differential validation against the native build
         self.notes = set()
         self.wall = 0.0
         self.incomplete = False
@@ -366,6 +371,8 @@ class Exploration:
             self.panics[res.detail] = self.panics.get(res.detail, 0) + 1
         if res.witness is not None and len(self.samples) < 12:
             self.samples.append(res.witness)
+        if res.witness is not None and self.paths % WSTRIDE == 0 and len(self.wsamples) < WCAP:
+            self.wsamples.append(res.witness)
         for n in getattr(res, 'notes', []):
             self.notes.add(n)
 
